@@ -16,6 +16,7 @@ struct Ctx {
     p: Vec<Address>,
     caller: Address,
     account: Address,
+    owner: Address,
 }
 
 #[derive(Clone, Copy, Debug, PartialEq, Eq, Serialize, Deserialize)]
@@ -29,6 +30,9 @@ enum Who {
     ContractNamingOther,
     /// account-type (G...) address; authorised (recording mode) or not
     Account(bool),
+    /// a direct, unauthorised call naming a *contract* as sender: 0 = the gateway itself,
+    /// 1 = another contract, 2 = the gateway's owner principal
+    UnauthorisedNaming(u8),
 }
 
 #[derive(Clone, Debug, Serialize, Deserialize)]
@@ -113,7 +117,7 @@ impl Scenario for C13 {
             let r = w.call(&gw, "rotate_signers", &[to_val(env, &next.raw(&keys).scval()), to_val(env, &proof), w.v(false)], Auth::Nobody);
             assert!(r.ok);
         }
-        (Ctx { w, gw, p: vec![p0, p1], caller, account }, 0)
+        (Ctx { w, gw, p: vec![p0, p1], caller, account, owner }, 0)
     }
 
     fn actions(&self, _ctx: &Ctx, _m: &u8) -> Vec<Act> {
@@ -128,6 +132,9 @@ impl Scenario for C13 {
             Who::ContractNamingOther,
             Who::Account(true),
             Who::Account(false),
+            Who::UnauthorisedNaming(0),
+            Who::UnauthorisedNaming(1),
+            Who::UnauthorisedNaming(2),
         ];
         for who in whos {
             for chain in 0..4u8 {
@@ -190,6 +197,13 @@ impl Scenario for C13 {
                 );
                 (c, ctx.p[0].clone(), false)
             }
+            Who::UnauthorisedNaming(k) => {
+                out.kind = "unauthorised-naming";
+                let s = match k { 0 => ctx.gw.clone(), 1 => ctx.caller.clone(), _ => ctx.owner.clone() };
+                let args = [s.to_val(), cv, av, pv];
+                let c = w.call(&ctx.gw, "call_contract", &args, Auth::Nobody);
+                (c, s, false)
+            }
             Who::Account(authorised) => {
                 out.kind = if authorised { "account" } else { "account-unauthorised" };
                 let s = ctx.account.clone();
@@ -232,7 +246,7 @@ fn main() {
     main_for(|tier| {
         let mut o = Opts::new(tier, 1);
         o.level = "exploration";
-        o.rule = "exhaustive grid from 3 gateway states (fresh, with approvals, after a rotation): sender/authorisation in {principal signing; another principal signing; nobody; principal signing a different call; both signing; contract naming itself as caller; contract naming another address; account-type address authorised / unauthorised} x destination chain {empty, ASCII, 300 chars, multi-byte} x destination address {hex, empty, non-ASCII} x payload length {0,1,31,32,33,135,136,137,272,4096,40960} (Keccak rate boundaries); one case is non-trivial and distinct when its (base state, sender mode, strings, payload) tuple differs".into();
+        o.rule = "exhaustive grid from 3 gateway states (fresh, with approvals, after a rotation): sender/authorisation in {principal signing; another principal signing; nobody; principal signing a different call; both signing; contract naming itself as caller; contract naming another address; account-type address authorised / unauthorised; unauthorised direct calls naming the gateway itself, another contract, the gateway's owner} x destination chain {empty, ASCII, 300 chars, multi-byte} x destination address {hex, empty, non-ASCII} x payload length {0,1,31,32,33,135,136,137,272,4096,40960} (Keccak rate boundaries); one case is non-trivial and distinct when its (base state, sender mode, strings, payload) tuple differs".into();
         (C13, o)
     });
 }
